@@ -2,6 +2,7 @@ import CookModel.Analysis.Collector
 import CookModel.Lemmas.ExtLawsStep
 import CookModel.Lemmas.ExtLawsAnalysis
 import CookModel.Lemmas.ExtLawsTimer
+import CookModel.Lemmas.ExtLawsAnalysisFull
 import CookModel.Lemmas.LexLaws
 /-
   C02  Core-syntax recipes parse identically under every extension subset.
@@ -166,6 +167,70 @@ theorem C02_no_digit_no_inline_quantity (env : Env) (fuel : Nat) (pre rest : Str
 example : ([.metadata (Text.fromStr ['s','e','r','v','i','n','g','s'] 3) (Text.fromStr ['t','w','o'] 13),
     .text (Text.fromStr ['M','i','x',' ','w','e','l','l','.'] 17)] : List (Ev Rat)).all (evCoreA toyCharSpec) = true := by
   decide
+
+/-! #### The analysis part in full: every gate of the analysis is irrelevant on `evCoreX` events
+
+  The analysis reads three flags, at four places; for each the syntactic predicate on the EVENT
+  that makes the gate unreachable or irrelevant (the converter of `env` is a parameter of two of
+  them, its extension set of none):
+  * MODES, `metadata`: the `>>` key is not `[…]` (`bracketedKey`);
+  * INLINE_QUANTITIES, text in a step: the text is not empty and the inline-quantity finder finds
+    nothing in it under the converter (`textCoreX`);
+  * ADVANCED_UNITS, `ingredient` (unit compatibility of a reference): no `&` modifier, or no
+    quantity (`ingrCoreX`) — in the default modes, which are kept as long as no `[…]` key is seen;
+  * ADVANCED_UNITS, `timer`: the value is not text and the unit, if any, is a time unit of the
+    converter (`timerCoreX`).
+  COMPONENT_MODIFIERS, COMPONENT_ALIAS, RANGE_VALUES, TIMER_REQUIRES_TIME and
+  INTERMEDIATE_PREPARATIONS are never read by the analysis. -/
+
+/-- INLINE_QUANTITIES: a step text in which the finder finds nothing (and which is not empty) is
+    handled alike under every extension set -/
+theorem C02_inline_irrelevant (env : Env) (e : Ext) (t : Text) (items : List Item)
+    (h : textCoreX α env t = true) :
+    inStepTextStep (α := α) (env.withExt e) t items = inStepTextStep env t items :=
+  inStepTextStep_extX env e t items h
+
+/-- ADVANCED_UNITS in `timer`: a numeric value and a time unit (or no unit, or no quantity) pass the
+    unit checks silently, so the timer is analysed alike under every extension set -/
+theorem C02_timer_units_irrelevant (env : Env) (e : Ext) (lt : Loc (PTimer α))
+    (h : timerCoreX env lt.val = true) : timerA (env.withExt e) lt = timerA env lt :=
+  timerA_extX env e lt h
+
+/-- ADVANCED_UNITS in `ingredient`: in the default modes an ingredient without `&`, or without a
+    quantity, never reaches the unit-compatibility checks, so it is analysed alike under every
+    extension set -/
+theorem C02_ref_units_irrelevant (env : Env) (e : Ext) (input : Str) (li : Loc (PIngredient α)) (s : Col α)
+    (hm : s.defineMode = .all ∧ s.duplicateMode = .new) (h : ingrCoreX li.val = true) :
+    ingredientA (env.withExt e) input li s = ingredientA env input li s :=
+  ingredientA_extX env e input li s hm h
+
+/-- … and the default modes are kept by every `evCoreX` event (only a `[mode]`/`[duplicate]` key
+    processed under MODES changes them) -/
+theorem C02_default_modes_kept (env : Env) (input : Str) (ev : Ev α) (s : Col α)
+    (hm : s.defineMode = .all ∧ s.duplicateMode = .new) (h : evCoreX α env ev = true) :
+    (processEvent env input ev s).2.defineMode = .all ∧ (processEvent env input ev s).2.duplicateMode = .new :=
+  processEvent_modes env input ev s hm h
+
+/-- C02, analysis part, full: on `evCoreX` events `parse_events` gives the same result (recipe
+    tables, metadata, diagnostics, panic flag) under EVERY extension set (all raw bit patterns);
+    no assumption on the ADVANCED_UNITS bit any more -/
+theorem C02_analysis_ext_irrelevant (env : Env) (e : Ext) (input : Str) (evs : List (Ev α))
+    (h : evs.all (evCoreX α env) = true) :
+    parseEvents (env.withExt e) input evs = parseEvents env input evs :=
+  parseEvents_extX env e input evs h
+
+/-- the premise of the partial theorem (no ASCII digit in texts) implies the new one for texts -/
+theorem C02_textCore_weaker (env : Env) (t : Text) (h : textCore t = true) : textCoreX α env t = true :=
+  textCoreX_of_textCore env t h
+
+/-- C02, parser and analysis together: an input all of whose blocks are `UsesNone` and whose events
+    (the same under every extension set by `C02_pullEvents_ext_irrelevant`) are `evCoreX` gives the
+    same full result of `CooklangParser::parse` under every extension set -/
+theorem C02_parse_ext_irrelevant_events (env : Env) (e : Ext) (input : Str)
+    (hu : UsesNoneInput env.cs input = true)
+    (hev : (pullEvents (α := α) env.cs env.ext input).1.toList.all (evCoreX α env) = true) :
+    parseRecipe (α := α) (env.withExt e) input = parseRecipe env input :=
+  parseRecipe_extX env e input hu hev
 
 /-! ### The converse clause, remaining gates: a disabled extension's syntax is core text -/
 
